@@ -39,6 +39,17 @@ pub fn money_regex_parser(config: &SmartCalcConfig, tokinizer: &mut Tokinizer, g
                 _ => continue
             };
 
+            /* '0xCD' or '0xAF12' is a hexadecimal literal, not zero XCD / XAF */
+            let price_text = capture.name("PRICE").unwrap().as_str();
+            if price_text == "0" && capture.name("CURRENCY").unwrap().start() == capture.name("PRICE").unwrap().end() {
+                let mut chars = currency.chars();
+                if let Some('x') | Some('X') = chars.next() {
+                    if chars.all(|ch| ch.is_ascii_hexdigit()) {
+                        continue;
+                    }
+                }
+            }
+
             let currency = match read_currency(config, currency) {
                 Some(real_currency) => real_currency,
                 _ => continue
